@@ -2,6 +2,7 @@ package mcap
 
 import (
 	"fmt"
+	"math"
 )
 
 type ReadOrder int
@@ -25,6 +26,10 @@ type ReadOptions struct {
 
 	StartNanos uint64
 	EndNanos   uint64
+
+	// endSet records that an end bound was given explicitly. Without one the read is unbounded
+	// above, so that a message logged at exactly math.MaxUint64 is still returned.
+	endSet bool
 }
 
 func (ro *ReadOptions) Finalize() {
@@ -34,6 +39,12 @@ func (ro *ReadOptions) Finalize() {
 	if ro.EndNanos == 0 && ro.End > 0 {
 		ro.EndNanos = uint64(ro.End)
 	}
+}
+
+// unboundedEnd reports whether the read has no upper time bound: the default end of
+// math.MaxUint64 was never replaced by an explicit one.
+func (ro *ReadOptions) unboundedEnd() bool {
+	return !ro.endSet && ro.EndNanos == math.MaxUint64
 }
 
 type ReadOpt func(*ReadOptions) error
@@ -90,6 +101,7 @@ func BeforeNanos(end uint64) ReadOpt {
 			return fmt.Errorf("end cannot come before start")
 		}
 		ro.EndNanos = end
+		ro.endSet = true
 		return nil
 	}
 }
